@@ -1,6 +1,6 @@
 //go:build verif
 
-// C08 part "live" — connections that end WHILE messages are being delivered to them (DESIGN §10.7).
+// C08 part "live" — connections that end WHILE messages are being delivered to them (DESIGN §10.5c-f).
 // The cut-point enumeration of brokerlab/c08_test.go ends a victim on an otherwise quiet broker; here
 // 3-8 victims subscribed to hot channels (plain socket or behind the real listener.Conn at flush rate
 // 1/3/1000, with and without a last will, some with a link-created subscription) are ended - abrupt
